@@ -116,7 +116,7 @@ func (i *interpreter) ensureInit(pkg *ssa.Package) {
 		return
 	}
 	i.inited[pkg] = true
-	if noInitPkgs[pkg.Pkg.Path()] {
+	if noInitPkgs[pkg.Pkg.Path()] && !forceInitPkgs[pkg.Pkg.Path()] {
 		return
 	}
 	pkg.Build()
@@ -151,6 +151,9 @@ func (i *interpreter) ensureInit(pkg *ssa.Package) {
 var initProblems []string
 
 // packages whose initializers are never run (their functions are modelled natively or unused)
+// forceInitPkgs: packages a harness directory asked to have initialised ("//verif:init").
+var forceInitPkgs = map[string]bool{}
+
 var noInitPkgs = map[string]bool{
 	"errors": true, "runtime": true, "os": true, "syscall": true, "net": true, "reflect": true,
 	"internal/reflectlite": true, "sync": true, "sync/atomic": true, "internal/cpu": true,
